@@ -332,4 +332,211 @@ theorem tie_co_avg [Add α] [Div α] [OfNat α 0] [IntCast α] [NatCast α] [LE 
       rw [hcast]; rfl
 
 end
+
+/-! ### `co_median` -/
+section
+variable {α : Type}
+open Nan
+
+theorem foldl_nonNaN (l : List (Nan α)) (acc : List (Nan α)) :
+    l.foldl (fun (acc : List (Nan α)) (v : Nan α) => match v with | none => acc | some a => acc ++ [num a]) acc
+      = acc ++ (Raster.nonNaN l).map num := by
+  induction l generalizing acc with
+  | nil => show acc = acc ++ List.map num []; simp
+  | cons x xs ih =>
+    cases x using Nan.casesOn' with
+    | nan => exact ih acc
+    | num a =>
+      rw [List.foldl_cons]
+      show List.foldl _ (acc ++ [num a]) xs = acc ++ List.map num (a :: Raster.nonNaN xs)
+      rw [ih]; simp
+
+theorem innerMin [LE α] [DecidableLE α] {ρ : Type} (body : Nan α → Nan α → M (Ctl (Nan α) ρ))
+    (h : ∀ v m, body (num v) (num m) = .ok (.cont (if v ≤ m then num v else num m))) (arr : List α) (a : α) :
+    Py.forList body (arr.map num) (num a) = .ok (.done (num (Raster.lastMin a arr))) := by
+  induction arr generalizing a with
+  | nil => rfl
+  | cons x xs ih =>
+    rw [List.map_cons, Py.forList_cons_cont (h x a)]
+    by_cases hx : x ≤ a
+    · rw [if_pos hx, ih]; simp [Raster.lastMin, hx]
+    · rw [if_neg hx, ih]; simp [Raster.lastMin, hx]
+
+theorem lastMin_mem [LE α] [DecidableLE α] (a : α) (l : List α) : Raster.lastMin a l = a ∨ Raster.lastMin a l ∈ l := by
+  induction l generalizing a with
+  | nil => exact .inl rfl
+  | cons x xs ih =>
+    have e : Raster.lastMin a (x :: xs) = Raster.lastMin (if x ≤ a then x else a) xs := rfl
+    rw [e]
+    rcases ih (if x ≤ a then x else a) with h | h
+    · rw [h]
+      by_cases hx : x ≤ a
+      · rw [if_pos hx]; exact .inr List.mem_cons_self
+      · rw [if_neg hx]; exact .inl rfl
+    · exact .inr (List.mem_cons_of_mem _ h)
+
+theorem removeFirst_erase [LE α] [DecidableLE α] [BEq α] (hbeq : ∀ a b : α, (a == b) = Py.feq a b) (hle : ∀ x : α, x ≤ x)
+    (arr : List α) (m : α) (hm : m ∈ arr) :
+    Py.removeFirst Py.feq (arr.map num) (num m) = .ok ((arr.erase m).map num) ∧ (arr.erase m).length + 1 = arr.length := by
+  induction arr with
+  | nil => exact nomatch hm
+  | cons x xs ih =>
+    rw [List.map_cons, List.erase_cons, hbeq]
+    by_cases hx : Py.feq x m = true
+    · simp only [Py.removeFirst, Nan.feq_num, hx, if_true, List.length_cons, and_self]
+    · have hne : m ≠ x := by
+        intro e; subst e; apply hx; simp [Py.feq, hle]
+      have hm' : m ∈ xs := by
+        rcases List.mem_cons.mp hm with h | h
+        · exact absurd h hne
+        · exact h
+      obtain ⟨h1, h2⟩ := ih hm'
+      simp only [Py.removeFirst, Nan.feq_num, hx, h1, List.map_cons, List.length_cons, h2, if_false, Bool.false_eq_true, and_self]
+
+
+/-- what is left of the array after `k` rounds of the selection sort -/
+def selRest [LE α] [DecidableLE α] [BEq α] : Nat → List α → List α
+  | 0, l => l
+  | _ + 1, [] => []
+  | k + 1, a :: r => selRest k ((a :: r).erase (Raster.lastMin a (a :: r)))
+
+theorem lastMin_mem_self [LE α] [DecidableLE α] (a : α) (r : List α) : Raster.lastMin a (a :: r) ∈ a :: r := by
+  rcases lastMin_mem a (a :: r) with h | h
+  · rw [h]; exact List.mem_cons_self
+  · exact h
+
+/-- the selection-sort loop of `co_median` (the loop index is not used by the body) -/
+theorem sortLoop [LE α] [DecidableLE α] [BEq α] {ρ : Type} (hbeq : ∀ a b : α, (a == b) = Py.feq a b) (hle : ∀ x : α, x ≤ x)
+    (body : Int → List (Nan α) × List (Nan α) → M (Ctl (List (Nan α) × List (Nan α)) ρ))
+    (h : ∀ i a r tab, body i ((a :: r).map num, tab) =
+      .ok (.cont (((a :: r).erase (Raster.lastMin a (a :: r))).map num, tab ++ [num (Raster.lastMin a (a :: r))])))
+    (is : List Int) (arr : List α) (tab : List (Nan α)) (hlen : is.length ≤ arr.length) :
+    Py.forList body is (arr.map num, tab)
+      = .ok (.done ((selRest is.length arr).map num, tab ++ (Raster.selSort is.length arr).map num)) := by
+  induction is generalizing arr tab with
+  | nil => simp [selRest, Raster.selSort]
+  | cons i is ih =>
+    cases arr with
+    | nil => simp at hlen
+    | cons a r =>
+      rw [Py.forList_cons_cont (h i a r tab)]
+      have hl := (removeFirst_erase hbeq hle (a :: r) _ (lastMin_mem_self a r)).2
+      rw [ih _ _ (by simp only [List.length_cons] at hlen hl; omega)]
+      simp [selRest, Raster.selSort]
+
+theorem length_selSort [LE α] [DecidableLE α] [BEq α] (hbeq : ∀ a b : α, (a == b) = Py.feq a b) (hle : ∀ x : α, x ≤ x)
+    (k : Nat) (arr : List α) (hk : k ≤ arr.length) : (Raster.selSort k arr).length = k := by
+  induction k generalizing arr with
+  | zero => rfl
+  | succ k ih =>
+    cases arr with
+    | nil => simp at hk
+    | cons a r =>
+      have hl := (removeFirst_erase hbeq hle (a :: r) _ (lastMin_mem_self a r)).2
+      simp only [Raster.selSort, List.length_cons]
+      rw [ih _ (by simp only [List.length_cons] at hk hl; omega)]
+
+theorem length_range0 (n : Nat) : (Py.range 0 (n : Int)).length = n := by
+  unfold Py.range; rw [Py.length_rangeFrom]; omega
+
+theorem getIdx_map_num (tab : List α) (k : Nat) (hk : k < tab.length) :
+    Py.getIdx (tab.map num) (k : Int) = .ok (num tab[k]) := by
+  rw [Py.getIdx_natCast]
+  apply Py.getItem_eq_ok
+  simp [hk]
+
+
+theorem getItem_map_cons (a : α) (r : List α) : Py.getItem ((a :: r).map num) 0 = .ok (num a) := rfl
+
+/-- `int(x)` on the NaN-extended scalar (`int(nan)` raises in Python; it is never evaluated on a NaN by `co_median`) -/
+def truncNan (trunc0 : α → Int) : Nan α → Int
+  | some x => trunc0 x
+  | none => 0
+
+theorem tie_co_median [Add α] [Sub α] [Mul α] [Div α] [LE α] [DecidableLE α] [IntCast α] [OfScientific α] [OfNat α 1] [OfNat α 2]
+    [BEq α] (trunc0 : α → Int) (l : List (Option α))
+    (hbeq : ∀ a b : α, (a == b) = Py.feq a b) (hle : ∀ x : α, x ≤ x)
+    (htr : ∀ k : Nat, trunc0 (((k : Int) : α) / 2) = ((k / 2 : Nat) : Int))
+    (htr1 : ∀ k : Nat, k % 2 = 0 → trunc0 (((k : Int) : α) / 2 - 1) = ((k / 2 : Nat) : Int) - 1)
+    (hhalf : (0.5 : α) = 1 / 2) :
+    Gen.Utils.co_median (α := Nan α) (nan := none) (trunc := truncNan trunc0) l = .ok (Raster.coMedian l) := by
+  revert l; intro (l : List (Nan α))
+  unfold Gen.Utils.co_median
+  simp only []
+  have h1 : ∀ body : Int → List (Nan α) → Py.M (Py.Ctl (List (Nan α)) (Nan α)), _ → Py.forList body (Py.range 0 (Py.len l)) [] = _ :=
+    fun body h => forList_range_getIdx_foldl l
+      (fun (acc : List (Nan α)) (v : Nan α) => match v with | none => acc | some a => acc ++ [num a]) body h []
+  rw [h1 _ ?spec]
+  case spec =>
+    intro i s
+    cases Py.getIdx l i with
+    | error e => rfl
+    | ok v =>
+      cases v using Nan.casesOn' with
+      | nan => simp only [Nan.isnan_nan, Py.bind_ok, if_true]
+      | num a => simp only [Nan.isnan_num a (hle a), Py.bind_ok, Bool.false_eq_true, if_false]
+  simp only [Py.bind_ok, foldl_nonNaN, List.nil_append]
+  unfold Raster.coMedian
+  by_cases h0 : Py.len l ≤ 0
+  · have : l = [] := by
+      cases l with
+      | nil => rfl
+      | cons x xs => simp [Py.len] at h0; omega
+    subst this; rfl
+  · have hl : ¬ @List.length (Option α) l = 0 := by
+      intro h; apply h0; show ((@List.length (Option α) l : Nat) : Int) ≤ 0; omega
+    simp only [h0, decide_false, Bool.false_eq_true, if_false]
+    rw [if_neg hl]
+    generalize Raster.nonNaN l = arr
+    clear h1 h0 hl l
+    have hlen : Py.len (List.map num arr) = (arr.length : Int) := by simp [Py.len]
+    rw [hlen]
+    by_cases hn : arr.length = 0
+    · simp [hn]
+    · have hn' : ¬ (arr.length : Int) = 0 := by omega
+      simp only [hn', decide_false, Bool.false_eq_true, if_false]
+      rw [if_neg hn]
+      have hs : ∀ body : Int → List (Nan α) × List (Nan α) → Py.M (Py.Ctl (List (Nan α) × List (Nan α)) (Nan α)), _ →
+          Py.forList body (Py.range 0 (arr.length : Int)) (List.map num arr, []) = _ :=
+        fun body h => sortLoop hbeq hle body h (Py.range 0 (arr.length : Int)) arr []
+          (by rw [length_range0]; exact Nat.le_refl _)
+      rw [hs _ ?spec2]
+      case spec2 =>
+        intro i a r tab
+        simp only [getItem_map_cons, Py.bind_ok]
+        have hi : ∀ body' : Nan α → Nan α → Py.M (Py.Ctl (Nan α) (Nan α)), _ →
+            Py.forList body' (List.map num (a :: r)) (num a) = _ := fun body' h => innerMin body' h (a :: r) a
+        rw [hi _ ?spec3]
+        case spec3 =>
+          intro v m
+          simp only [Nan.le_num]
+          by_cases hvm : v ≤ m
+          · simp only [hvm, decide_true, if_true]
+          · simp only [hvm, decide_false, Bool.false_eq_true, if_false]
+        simp only [(removeFirst_erase hbeq hle (a :: r) _ (lastMin_mem_self a r)).1, Py.bind_ok]
+      simp only [Py.bind_ok, length_range0, List.nil_append]
+      clear hs
+      have hlen2 := length_selSort hbeq hle arr.length arr (Nat.le_refl _)
+      generalize Raster.selSort arr.length arr = tab at hlen2 ⊢
+      generalize arr.length = n at *
+      rw [Int.fmod_eq_emod_of_nonneg _ (by omega)]
+      by_cases hodd : n % 2 = 1
+      · have ho : (n : Int) % 2 = 1 := by omega
+        have e1 : (n : Int) - 1 = ((n - 1 : Nat) : Int) := by omega
+        have e2 : truncNan trunc0 ((((n : Int) - 1 : Int) : Nan α) / 2) = (((n - 1) / 2 : Nat) : Int) := by
+          rw [e1]; exact htr (n - 1)
+        simp only [ho, decide_true, if_true]
+        rw [if_pos hodd, e2, getIdx_map_num tab _ (by omega), Py.bind_ok, List.getElem?_eq_getElem (by omega)]
+      · have ho : ¬ (n : Int) % 2 = 1 := by omega
+        have e2 : truncNan trunc0 (((n : Int) : Nan α) / 2) = ((n / 2 : Nat) : Int) := htr n
+        have e3 : truncNan trunc0 (((n : Int) : Nan α) / 2 - 1) = ((n / 2 - 1 : Nat) : Int) := by
+          show trunc0 (((n : Int) : α) / 2 - 1) = _
+          rw [htr1 n (by omega)]; omega
+        simp only [ho, decide_false, Bool.false_eq_true, if_false]
+        rw [if_neg hodd, e2, e3, getIdx_map_num tab _ (by omega), Py.bind_ok, getIdx_map_num tab _ (by omega), Py.bind_ok,
+          List.getElem?_eq_getElem (by omega), List.getElem?_eq_getElem (by omega)]
+        show Except.ok (some ((0.5 : α) * _)) = _
+        rw [hhalf]; rfl
+
+end
 end TV.Tie.C19
